@@ -519,6 +519,50 @@ func modeTLSGate(args []string) {
 				}
 			}
 		}
+		// many failed handshakes in a row (port probes, health checks that connect and hang up): whatever the server keeps per
+		// handshake must not add up - afterwards a well-behaved client is still served
+		floodN := 300
+		if len(args) > 0 {
+			if n, err := strconv.Atoi(args[0]); err == nil && n > 0 {
+				floodN = n
+			}
+		}
+		for _, kind := range []string{"connect-close", "hello-close", "mixed"} {
+			r := gateResult{Config: cfgName, Cred: "none", Fault: fmt.Sprintf("flood-%s-%d", kind, floodN), Order: "bad-first"}
+			for i := 0; i < floodN; i++ {
+				raw, err := net.DialTimeout("tcp", addr(s.secure), ioTimeout)
+				if err != nil {
+					r.Note = "dial: " + err.Error()
+					break
+				}
+				k := kind
+				if kind == "mixed" {
+					k = []string{"connect-close", "hello-close", "garbage"}[i%3]
+				}
+				switch k {
+				case "hello-close":
+					c := tls.Client(&abortAfterFirstWrite{Conn: raw}, p.clientConfig(nil))
+					c.SetDeadline(time.Now().Add(ioTimeout))
+					c.Handshake()
+				case "garbage":
+					raw.SetDeadline(time.Now().Add(ioTimeout))
+					raw.Write([]byte("\x16\x03\x01\x00\x05hello garbage \x00\xff\xfe"))
+				}
+				raw.Close()
+			}
+			time.Sleep(50 * time.Millisecond)
+			vc := p.valid.tlsCert()
+			t0 := time.Now()
+			_, r.GoodTLS = tlsServed(p, s.secure, &vc, pw)
+			if !r.GoodTLS { // once more, in case the first attempt raced with the tail of the flood
+				time.Sleep(300 * time.Millisecond)
+				t0 = time.Now()
+				_, r.GoodTLS = tlsServed(p, s.secure, &vc, pw)
+			}
+			r.GoodTLSDur = time.Since(t0).Milliseconds()
+			r.GoodPlain = plainAlive(s.plain)
+			emit(r)
+		}
 		// the operator replaces the CA client certificates must chain to, and restarts: from then on the retired CA's
 		// clients are strangers and the new CA's clients are admitted
 		ca2 := filepath.Join(p.dir, "ca-rotated.crt")
